@@ -54,7 +54,7 @@ FLOORS = {
                  "batch_runs": 24000000, "law_tests": 1200, "pair_tests": 15000, "equal_draw_tests": 6000, "lag_tests": 300,
                  "distinct:nontrivial": 120},
 }
-TIMEOUT_S = {"quick": 900, "thorough": 3600}
+TIMEOUT_S = {"quick": 1800, "thorough": 5400}
 FAMILY_ALPHA = 1e-9
 
 N_BATCH = {"quick": 20000, "thorough": 200000}
